@@ -144,6 +144,8 @@ int main(int argc, char **argv) {
 	setenv("RC_PARAMS", params.c_str(), 1);
 
 	const unsigned dscale = p->data_scale, sscale = p->sched_scale;
+	const long max_backstops = opt.count("max-backstops") ? atol(opt["max-backstops"].c_str()) : 4;
+	bool stop_early = false;
 	bool ok = rc::check(std::string("property ") + p->id, [&]() {
 		// byte strings whose length grows with the size parameter; byte values are uniform at
 		// every size (resize pins the element generator)
@@ -156,6 +158,7 @@ int main(int argc, char **argv) {
 				});
 			});
 		};
+		if (stop_early) return;
 		std::vector<int> di = *vecgen(dscale);
 		std::vector<int> si = *vecgen(sscale ? sscale : 1);
 		ref::Bytes data(di.begin(), di.end()), sched(si.begin(), si.end());
@@ -174,7 +177,9 @@ int main(int argc, char **argv) {
 		}
 		Verdict v = run_case_forked(*p, data, sched, excluded);
 		evals++;
-		if (v.signature == "wallclock-backstop") { inconclusive++; return; }
+		// a case that hits the wall-clock backstop is inconclusive, never a violation; after a few of them the worker stops
+		// generating (a tree on which every case hangs would otherwise cost cases x 120 s)
+		if (v.signature == "wallclock-backstop") { inconclusive++; if (inconclusive >= max_backstops) stop_early = true; return; }
 		for (auto &t : v.tags) tagc[t]++;
 		for (auto &kv : v.counters) counters[kv.first] += kv.second;
 		for (auto &e : v.lock_edges)
